@@ -761,7 +761,12 @@ def classify_divergence(ds, rq, row, vec, distributed):
         return ("known", "F15f", "row path hashes the unseparated concatenation of the group key values: distinct key tuples of this dataset collide")
     if F["has_top"]:
         f = rq["top"]["field"]
-        if any((k or "").lower() in ("f7ff8000000000000", "ffff8000000000001") for k in keyseq(rr, f) + keyseq(vr, f)):
+        def is_nan(k):
+            if not k or k[0] != "F":
+                return False
+            b = int(k[1:], 16)
+            return (b >> 52) & 0x7ff == 0x7ff and b & ((1 << 52) - 1) != 0
+        if any(is_nan(k) for k in keyseq(rr, f) + keyseq(vr, f)):
             return ("known", "F15t", "top-N over NaN: both heaps use <, > on float64; NaN placement depends on insertion order")
         if len(rr) == len(vr) and keyseq(rr, f) == keyseq(vr, f):
             return ("known", "F15a", "top-N over equal sort values: different tie order / different tied row kept")
@@ -1215,7 +1220,7 @@ class C15(vlib.Spec):
         "measure_roles_tie", "measure_types_tie", "stream_roles_tie", "stream_types_tie", "coltype_iota_tie", "role_iota_tie"]]
     go_driver = "c15"
     lean_driver = "C15"
-    counts = {"quick": 180, "thorough": 1500}          # datasets; each carries 8 requests (6 standalone + 2 distributed)
+    counts = {"quick": 150, "thorough": 1500}          # datasets; each carries 8 requests (6 standalone + 2 distributed)
     trusted_base = [
         "Lean 4.33.0 kernel",
         "correspondence: Go driver hooks/banyand/internal/verifdrv/c15 (real frame codec, real plan.Dispatch) vs lean_exe drv_c15, byte exact",
